@@ -106,7 +106,7 @@ func (r *MMapReader) SeekNext(offset uint64) (uint64, []byte, error) {
 			trialOffset := uint64(next) + uint64(i)
 			record, err := r.ReadNextAt(trialOffset)
 			if err != nil {
-				if errors.Is(err, HeaderChecksumMismatchErr) || errors.Is(err, MagicNumberMismatchErr) || errors.Is(err, io.EOF) {
+				if errors.Is(err, HeaderChecksumMismatchErr) || errors.Is(err, MagicNumberMismatchErr) || errors.Is(err, HeaderMalformedErr) || errors.Is(err, io.EOF) || errors.Is(err, io.ErrUnexpectedEOF) {
 					// try to seek again, the record couldn't be read fully
 					i = ix
 					continue
